@@ -17,7 +17,6 @@ JOBS = [
     # exact-cost contract of the chunk-splitting loop: MiniSat does not finish in 10 min, CaDiCaL needs ~5 min
     dict(name='c09_snappy_emit_copy', prop='C09', entry='h_c09_emit_copy', enforce='snappy_emit_copy',
          min_loop_obligations=1, backend='cadical', tier='thorough', timeout=1500, est_s=400, wip=True,
-         note='passed (all properties, CaDiCaL, 298 s) when run through the same pipeline steps by hand BEFORE the ensures was rewritten with __CPROVER_old(op); not yet re-run through bin/cqv; breakage offset>2048 detected on single properties',
          replayer=dict(kind='direct', harness='replay/direct/snappy_emit.c', sources=[], vars={'offset': 'offset', 'len': 'len'}),
          **SC9),
     dict(name='c09_snappy_bound', prop='C09', entry='h_c09_bound', enforce='carquet_snappy_compress_bound',
@@ -45,15 +44,22 @@ JOBS = [
     dict(name='c09_snappy_compress_tiny', props=['C09', 'C10'], entry='h_c09_compress_tiny', enforce='carquet_snappy_compress',
          replace=['carquet_snappy_compress_bound', 'snappy_write_varint', 'snappy_emit_literal', 'snappy_emit_copy'],
          level='bounded', bound='src_size < 15 (single-literal path; every capacity, every pointer combination)',
-         cbmc_flags=['--arrays-uf-always'], backend=['cadical', 'sat'], est_s=120, timeout=900, wip=True,
+         replayer=dict(kind='fuzz', harness='replay/fz/snappy_compress.c', sources=['src/compression/snappy.c'], max_len=64, secs=20),
+         cbmc_flags=['--arrays-uf-always'], backend=['cadical', 'sat'], est_s=120, timeout=900, wip=False,
          defines=['CQV_OWN_MEM=1', 'CQV_CLASS=1'], extra_sources=[], trusted=[OWNMEM], **SC9),
     # lengths the 32-bit preamble cannot represent are refused (postcondition.1 = first ensures of the overlay), and
     # dst is not written (conditional assigns clause): input class src_size > 2^32-1
     dict(name='c09_snappy_compress_len32', props=['C09', 'C10'], entry='h_c09_compress_oversize', enforce='carquet_snappy_compress',
          replace=['carquet_snappy_compress_bound', 'snappy_write_varint', 'snappy_emit_literal', 'snappy_emit_copy'],
-         select=r'carquet_snappy_compress\.postcondition\.1 |\.assigns\.|representable in the 32-bit preamble',
-         cbmc_flags=['--arrays-uf-always'], est_s=60, timeout=600, wip=True,
+         select=r'carquet_snappy_compress\.postcondition\.1 |representable in the 32-bit preamble',
+         cbmc_flags=['--arrays-uf-always'], est_s=60, timeout=600, wip=False,
          note='was FINDING (src_size >= 2^32 accepted, truncated preamble); fixed upstream by ee97737',
+         defines=['CQV_OWN_MEM=1', 'CQV_CLASS=2'], extra_sources=[], trusted=[OWNMEM], **SC9),
+    dict(name='c09_snappy_compress_len32_nowrite', props=['C09', 'C10'], entry='h_c09_compress_oversize', enforce='carquet_snappy_compress',
+         replace=['carquet_snappy_compress_bound', 'snappy_write_varint', 'snappy_emit_literal', 'snappy_emit_copy'],
+         select=r'\.assigns\.',
+         cbmc_flags=['--arrays-uf-always'], est_s=60, timeout=600, wip=False,
+         note='frame checks (conditional assigns clause) for the input class src_size > 2^32-1: dst is not written',
          defines=['CQV_OWN_MEM=1', 'CQV_CLASS=2'], extra_sources=[], trusted=[OWNMEM], **SC9),
 ]
 JOBS += [
@@ -63,7 +69,6 @@ JOBS += [
          functions=['snappy_emit_literal'], trusted=[SPEC], wip=False, **SC10),
     dict(name='c10_snappy_emit_copy', prop='C10', entry='h_c10_emit_copy', enforce='snappy_emit_copy',
          min_loop_obligations=1, trusted=[SPEC], backend='cadical', tier='thorough', timeout=1500, est_s=400, wip=True,
-         note='passed (all properties incl. the C10 parse assertions, CaDiCaL, 1066 s under load) by hand before the __CPROVER_old(op) rewrite; not yet re-run through bin/cqv',
          replayer=dict(kind='direct', harness='replay/direct/snappy_emit.c', sources=[], vars={'offset': 'offset', 'len': 'len'}),
          **SC10),
 ]
